@@ -1,6 +1,28 @@
 import os
+import re
 
+import lib
 from lib import TieCheck, BIN, HARNESS, COQ, REPO, Lock, go_env, sh
+
+
+def broken_lemmas(log):
+    """'File "./BridgeMw.v", line 57' -> 'BridgeMw.v: gen_new_eq_l (line 57)'."""
+    out = []
+    for m in re.finditer(r'File "\./([A-Za-z0-9_]+\.v)", line (\d+)', log):
+        f, ln = m.group(1), int(m.group(2))
+        try:
+            src = open(os.path.join(COQ, "C13", f)).read().splitlines()[:ln]
+        except OSError:
+            continue
+        name = None
+        for line in src:
+            mm = re.match(r"\s*(?:Lemma|Theorem|Corollary|Example|Fact|Definition|Fixpoint)\s+([A-Za-z0-9_']+)", line)
+            if mm:
+                name = mm.group(1)
+        item = "%s: %s (line %d)" % (f, name, ln)
+        if item not in out:
+            out.append(item)
+    return out
 
 
 class C13(TieCheck):
@@ -8,10 +30,16 @@ class C13(TieCheck):
     area = "C13"
     props = "Props_C13.v"
     harness = "c13"
+    # the check's own theorems and the correspondence are built without the tie-A files (MwSem / GenMw / BridgeMw): a
+    # broken tie is reported as such (gen) and the cases are still evaluated, which yields a concrete failing input
+    coq_targets = ["Corr.vo"]
+    # tie A (docs/GenC13.md): middleware composition regenerated from the tree under test, proved equal to Model.v
+    extra_props = [("C13", "Props_GenMw.v")]
     race = True     # the harness runs concurrent NewRoute calls in child processes under the race detector
     extra_trust = [
         "model: coq/C13/Model.v (options.go 119-156, 285-294; fox.go New/NewRoute/applyMiddleware/applyRouteMiddleware; txn.go Handle/Update) over coq/C13/GoSlice.v (Go slices and append with an arbitrary growth policy); coq/C13/Conc.v (two NewRoute calls interleaved at single append / single read granularity); spec: coq/C13/Spec.v",
         "coq/C13/GenConsts.v is regenerated from fox.go's HandlerScope constants on every run by harness/cmd/c13gen (go/ast; refuses unknown shapes)",
+        "coq/C13/GenMw.v is regenerated from fox.go / route.go on every run by harness/cmd/mwgen (applyMiddleware, applyRouteMiddleware, the handler and middleware fields of New and NewRoute, Route.Handle, Route.HandleMiddleware); coq/C13/BridgeMw.v proves Model.apply_middleware / apply_route_middleware / new / new_route equal to it for all inputs; trusted: mwgen itself, the primitives of coq/C13/MwSem.v and the reading of the two option loops (BridgeMw.model_gopts / model_ropts; the option closures are C19's tie, docs/GenOpt.md) (docs/GenC13.md)",
         "add-only hook /repo/verif_c13.go (build tag verif): read-only dump of Router.mws / Route.mws (scope, g, function code pointer, len, cap, array identity)",
         "Go race detector (harness built with -race) for the concurrent NewRoute experiment",
     ]
@@ -33,7 +61,31 @@ class C13(TieCheck):
         env["VERIF_REPO"] = REPO
         with Lock("coq.C13"):
             rc, o = sh([exe, "out=" + os.path.join(COQ, "C13", "GenConsts.v")], env=env, timeout=120)
-        return rc == 0, o
+        if rc != 0:
+            return False, o
+        ok2, o2 = self.gen_mw()
+        return ok2, o + o2
+
+    def gen_mw(self):
+        """tie A for middleware composition: mwgen rewrites coq/C13/GenMw.v from the tree under test, then
+        BridgeMw.v / Props_GenMw.v are rebuilt.  A refusal or a bridge lemma that no longer compiles is a broken
+        tie; the lemma is named."""
+        exe, o = lib.build_harness("mwgen")
+        if exe is None:
+            return False, "mwgen build failed:\n" + o[-2000:]
+        with Lock("coq.C13"):
+            rc, og = sh([exe, "repo=" + REPO, "out=" + os.path.join(COQ, "C13", "GenMw.v")], env=go_env(), timeout=300)
+        refused = "\n".join(l for l in og.splitlines() if "REFUSED" in l)
+        okb, lb = lib.coq_build("C13", targets=["Props_GenMw.vo"])
+        if rc == 0 and okb:
+            return True, og
+        bl = broken_lemmas(lb) if not okb else []
+        named = ("broken bridge lemma: " + ", ".join(bl)) if bl else ""
+        k = lb.find('File "./')
+        err = "" if okb else (lb[k:k + 1200] if k >= 0 else lb[-1200:])
+        head = "tie A (mwgen, docs/GenC13.md): middleware composition of %s is no longer proved equal to coq/C13/Model.v" % REPO
+        msg = "\n".join(x for x in [head, refused[:900], named, err, ("==> " + named) if named else "", ("==> " + refused[:600]) if refused else ""] if x)
+        return False, msg
 
 
 CHECK = C13()
